@@ -24,16 +24,16 @@ Proof. reflexivity. Qed.
 Theorem C20_no_inherited_lazy_slot : inherited_class_slots = [].
 Proof. reflexivity. Qed.
 (* and under exactly that condition every thread obtains, for every schedule of guards and stores and every mix of classes, what it obtains alone *)
-Theorem C20_class_slots_order_independent : forall (T:Type) (mro:nat -> list nat) (body:nat -> option T) (compute:nat -> T) (U:nat -> Prop),
+Theorem C20_class_slots_order_independent : forall (T:Type) (mro:nat -> list nat) (body:nat -> option (option T)) (compute:nat -> option T) (U:nat -> Prop),
   (forall d, NoDup (d :: mro d)) ->
-  (forall d c, U d -> U c -> In c (mro d) -> body c = None -> shadowed_before T mro body d c) ->
+  (forall d c, U d -> U c -> In c (mro d) -> ~ accepted_body T body c -> shadowed_before T mro body d c) ->
   forall sched ds t d v, Forall U ds -> In t (snd (srun T mro body compute sched (empty T, map (Start T) ds))) -> t = Done T d v -> v = expected T mro body compute d.
 Proof. exact slots_order_independent. Qed.
 Print Assumptions C20_class_slots_order_independent.
 (* without it: a class derived from a lazily filled class, used after it, obtains the base's table *)
 Example C20_inherited_slot_refuted : exists sched,
-  nth_error (snd (srun (list nat) ex_mro ex_body ex_compute sched (empty (list nat), [Start (list nat) 0; Start (list nat) 1]))) 1 = Some (Done (list nat) 1 [1;2;3;4;5])
-  /\ expected (list nat) ex_mro ex_body ex_compute 1 = [1;3;5].
+  nth_error (snd (srun (list nat) ex_mro ex_body ex_compute sched (empty (list nat), [Start (list nat) 0; Start (list nat) 1]))) 1 = Some (Done (list nat) 1 (Some [1;2;3;4;5]))
+  /\ expected (list nat) ex_mro ex_body ex_compute 1 = Some [1;3;5].
 Proof. exact inherited_slot_refuted. Qed.
 Theorem C20_instance_caches : forall s, In s lazy_instance_stores -> (let '(_, _, _, _, sh) := s in match sh with LUnsafe => false | _ => true end) = true.
 Proof. apply forallb_forall. vm_compute. reflexivity. Qed.
